@@ -925,3 +925,49 @@ func vSignedHash(signatureB64 string) crypto.Hash {
 	}
 	return 0
 }
+
+// vTreeSig (native): serialisation of the element
+func vTreeSig(e *etree.Element) string {
+	if e == nil {
+		return "<nil>"
+	}
+	d := etree.NewDocument()
+	d.SetRoot(e.Copy())
+	s, _ := d.WriteToString()
+	return s
+}
+
+// natively the digest is not observable: the real signature is verified instead by vxVerifyEnveloped
+func vDigestCovered(k int) string { return vxLastCovered }
+func vDigestCalls() int           { return 1 }
+func vSignDigestKeyIs(k *rsa.PrivateKey) bool { return true }
+
+var vxLastCovered string
+
+func vSPCertBytes() []byte { return vxKeyStore("sp").c }
+
+// vSignatureCovers (native): the enveloped signature of the returned message really verifies (goxmldsig,
+// trusting the SP certificate) after a serialise / re-parse round trip.
+func vSignatureCovers(root *etree.Element, sigIndex int) bool {
+	d := etree.NewDocument()
+	d.SetRoot(root.Copy())
+	b, err := d.WriteToBytes()
+	if err != nil {
+		return false
+	}
+	d2 := etree.NewDocument()
+	if err := d2.ReadFromBytes(b); err != nil || d2.Root() == nil {
+		return false
+	}
+	c, err := x509.ParseCertificate(vxKeyStore("sp").c)
+	if err != nil {
+		return false
+	}
+	ctx := dsig.NewDefaultValidationContext(&dsig.MemoryX509CertificateStore{Roots: []*x509.Certificate{c}})
+	ctx.Clock = dsig.NewFakeClockAt(time.Date(2030, 1, 1, 0, 0, 0, 0, time.UTC))
+	_, err = ctx.Validate(d2.Root())
+	if err != nil {
+		vx.notes = append(vx.notes, "verify: "+err.Error())
+	}
+	return err == nil
+}
